@@ -54,9 +54,9 @@ def run(ctx):
     for i in range(n):
         old_lines, _ = small_gff(r, "o")
         new_lines, _ = small_gff(r, "n")
-        dbfn = os.path.join(ctx.scratch, "c19.db")
-        if os.path.exists(dbfn):
-            os.unlink(dbfn)
+        for old in [x for x in os.listdir(ctx.scratch) if x.startswith("c19_")]:
+            os.unlink(os.path.join(ctx.scratch, old))
+        dbfn = os.path.join(ctx.scratch, "c19_%d.db" % i)
         p_old = dbside.write_lines(os.path.join(ctx.scratch, "old.gff3"), old_lines)
         p_new = dbside.write_lines(os.path.join(ctx.scratch, "new.gff3"), new_lines)
         cfg = dbside.Cfg()
@@ -107,9 +107,9 @@ def run(ctx):
             fname = "r.gff3"
         if not lines:
             continue
-        dbfn = os.path.join(ctx.scratch, "c19r.db")
-        if os.path.exists(dbfn):
-            os.unlink(dbfn)
+        for old in [x for x in os.listdir(ctx.scratch) if x.startswith("c19r_")]:
+            os.unlink(os.path.join(ctx.scratch, old))
+        dbfn = os.path.join(ctx.scratch, "c19r_%d.db" % i)
         path = dbside.write_lines(os.path.join(ctx.scratch, fname), lines)
         db, rep = dbside.py_create(path, dbside.Cfg(), dbfn=dbfn)
         if db is None:
